@@ -1615,6 +1615,12 @@ class ContractionTree:
 
         # make sure all flops and size information has been populated
         tree.contract_stats()
+        # and also which indices are involved in each contraction, *before*
+        # any node is modified, since these are derived from the child legs
+        # (nodes created with precomputed legs, e.g. by simulated annealing,
+        # do not have them cached yet)
+        for node in tree.children:
+            tree.get_involved(node)
 
         d = tree.size_dict[ind]
         if project is None:
